@@ -142,6 +142,63 @@ def run():
 
     _expect_ok("twocomms", 4, p_two_comms, failures, ok)
 
+    # vector collectives and attribute caching (added for programs that use them)
+    def p_vector(rank):
+        comm = MPI.COMM_WORLD
+        n = comm.Get_size()
+        counts = [i + 1 for i in range(n)]
+        displs = [sum(counts[:i]) + i for i in range(n)]             # one cell of padding between the blocks
+        send = np.full(rank + 1, float(rank))
+        recv = np.full(sum(counts) + n, -1.0)
+        comm.Allgatherv(send, [recv, counts, displs, MPI.DOUBLE])
+        for i in range(n):
+            assert np.all(recv[displs[i]:displs[i] + counts[i]] == i)
+            assert recv[displs[i] + counts[i]] == -1.0 if displs[i] + counts[i] < recv.size else True
+        # Alltoallv: rank p sends q+1 copies of 10p+q to rank q
+        sc = [q + 1 for q in range(n)]
+        sd = [sum(sc[:q]) for q in range(n)]
+        sb = np.concatenate([np.full(q + 1, 10.0 * rank + q) for q in range(n)])
+        rc = [rank + 1] * n
+        rd = [(rank + 1) * p for p in range(n)]
+        rb = np.zeros((rank + 1) * n)
+        comm.Alltoallv([sb, sc, sd, MPI.DOUBLE], [rb, rc, rd, MPI.DOUBLE])
+        for p_ in range(n):
+            assert np.all(rb[rd[p_]:rd[p_] + rank + 1] == 10.0 * p_ + rank)
+        # Scatterv from the last rank
+        root = n - 1
+        piece = np.zeros(rank + 1)
+        if rank == root:
+            whole = np.concatenate([np.full(q + 1, 7.0 + q) for q in range(n)])
+            comm.Scatterv([whole, sc, sd, MPI.DOUBLE], piece, root=root)
+        else:
+            comm.Scatterv(None, piece, root=root)
+        assert np.all(piece == 7.0 + rank)
+        # attribute caching is per communicator and per process
+        key = MPI.Comm.Create_keyval()
+        assert comm.Get_attr(key) is None
+        comm.Set_attr(key, ("mine", rank))
+        d = comm.Dup()
+        assert d.Get_attr(key) is None and comm.Get_attr(key) == ("mine", rank)
+        comm.Delete_attr(key)
+        assert comm.Get_attr(key) is None
+    for n in (1, 2, 3, 4):
+        _expect_ok("vector%d" % n, n, p_vector, failures, ok)
+
+    def p_vector_bad_counts(rank):
+        comm = MPI.COMM_WORLD
+        n = comm.Get_size()
+        send = np.full(rank + 1, float(rank))
+        counts = [i + 1 for i in range(n)]
+        if rank == 0:
+            counts[-1] += 1                                              # rank 0 expects one element more from the last rank
+        recv = np.zeros(sum(counts))
+        comm.Allgatherv(send, [recv, counts, None, MPI.DOUBLE])
+    _expect_err("vector-bad-counts", 3, p_vector_bad_counts, MPI.CollectiveMismatch, failures, ok)
+
+    def p_unsupported(rank):
+        MPI.COMM_WORLD.Ibarrier()
+    _expect_err("unsupported-call", 2, p_unsupported, MPI.SimUnsupported, failures, ok, every_rank=True)
+
     # ---- planted faults --------------------------------------------------------------------------
     def f_wrong_root(rank):
         MPI.COMM_WORLD.bcast(1, root=0 if rank != 1 else 1)
